@@ -924,14 +924,29 @@ func c02PublishBeforeStarted(c *Ctx, pkgFns []*ssa.Function) {
 		if !asks || T == nil || T.Obj().Name() == "StartSync" {
 			continue
 		}
-		EachInstr(g, func(in ssa.Instruction) {
-			if fv := fieldTouched(in, T); fv != nil && !fv.Embedded() {
-				if guarded[T] == nil {
-					guarded[T] = map[*types.Var]bool{}
-				}
-				guarded[T][fv] = true
+		// ... in g itself and in the methods of T it calls (a predicate helper such as isFinished)
+		seenFn := map[*ssa.Function]bool{}
+		var collect func(f *ssa.Function)
+		collect = func(f *ssa.Function) {
+			if seenFn[f] || len(seenFn) > 16 {
+				return
 			}
-		})
+			seenFn[f] = true
+			EachInstr(f, func(in ssa.Instruction) {
+				if fv := fieldTouched(in, T); fv != nil && !fv.Embedded() {
+					if guarded[T] == nil {
+						guarded[T] = map[*types.Var]bool{}
+					}
+					guarded[T][fv] = true
+				}
+				if cc := CC(in); cc != nil && cc.StaticCallee() != nil && len(cc.StaticCallee().Blocks) > 0 {
+					if T2, _ := recvStruct(cc.StaticCallee()); T2 == T {
+						collect(cc.StaticCallee())
+					}
+				}
+			})
+		}
+		collect(g)
 	}
 	isWrite := func(in ssa.Instruction, T *types.Named) *types.Var {
 		if st, ok := in.(*ssa.Store); ok {
